@@ -990,3 +990,57 @@ def closure_consts(outer_fn, inner_fn=None) -> Dict[str, ast.expr]:
         shadow = {x.arg for x in a.posonlyargs + a.args + a.kwonlyargs} | _stored_names([inner_fn])
         defs = {n: v for n, v in defs.items() if n not in shadow}
     return defs
+
+
+# ---------------------------------------------------------------------- three-valued guards over named facts
+def tv3(e, val: Dict[str, bool], fact, env: Optional[Dict[str, ast.expr]] = None, depth: int = 0):
+    """Three-valued truth (True / False / None = unknown) of the test `e` when the facts of `val` are known and nothing
+    else is.  `fact(atom expr) -> (fact name, polarity) | None` names the atoms; `env` = single-assignment locals that
+    spell a condition (`flag = a and not b`) -- they are looked through.  `not`, `and`, `or`, `bool(x)` are evaluated
+    (Kleene), so the shape of the test (nested, inverted, De Morgan, early return) does not matter."""
+    env = env or {}
+    if isinstance(e, ast.BoolOp):
+        vs = [tv3(v, val, fact, env, depth) for v in e.values]
+        if isinstance(e.op, ast.And):
+            return False if any(v is False for v in vs) else (True if all(v is True for v in vs) else None)
+        return True if any(v is True for v in vs) else (False if all(v is False for v in vs) else None)
+    if isinstance(e, ast.UnaryOp) and isinstance(e.op, ast.Not):
+        v = tv3(e.operand, val, fact, env, depth)
+        return None if v is None else not v
+    if isinstance(e, ast.Call) and isinstance(e.func, ast.Name) and e.func.id == "bool" and len(e.args) == 1 and not e.keywords:
+        return tv3(e.args[0], val, fact, env, depth)
+    fa = fact(e)
+    if fa is not None:
+        return (val[fa[0]] == fa[1]) if fa[0] in val else None
+    if isinstance(e, ast.Name) and e.id in env and depth < 4:
+        return tv3(env[e.id], val, fact, env, depth + 1)
+    return None
+
+
+def assuming(g, val: Dict[str, bool], fact, env=None, exc: bool = False):
+    """edge_ok for CFG path queries: (normal edges only unless exc=True, and) no branch outcome that contradicts the
+    assumed facts."""
+    def ok(a, b, lab):
+        if lab == "exc":
+            return exc
+        n = g.nodes[a]
+        if n.kind == "test" and lab in ("true", "false"):
+            t = getattr(n.stmt, "test", None)
+            if t is not None:
+                v = tv3(t, val, fact, env)
+                if v is not None and v != (lab == "true"):
+                    return False
+        return True
+    return ok
+
+
+def none_test(e, name_pred):
+    """`X is None` / `X is not None` / `X == None` / bare `X` (truthiness, only when truthy=True is accepted by the
+    caller) for a Name accepted by name_pred: ('isnone', X, polarity) else None"""
+    if isinstance(e, ast.Compare) and len(e.ops) == 1 and isinstance(e.comparators[0], ast.Constant) and e.comparators[0].value is None \
+            and isinstance(e.left, ast.Name) and name_pred(e.left.id):
+        if isinstance(e.ops[0], (ast.Is, ast.Eq)):
+            return True
+        if isinstance(e.ops[0], (ast.IsNot, ast.NotEq)):
+            return False
+    return None
